@@ -202,6 +202,11 @@ func (e *Env) invokeOn(srv *objectsvc.Server, b *Built) Result {
 	e.Log.Reset()
 	var res Result
 	rec := recorder{log: e.Log, res: &res}
+	// like the gRPC server, cancel the call context once the handler returned
+	// (streams to the fake remote node are released by it)
+	ctx, cancel := context.WithCancel(b.Ctx)
+	defer cancel()
+	b = &Built{Spec: b.Spec, Ctx: ctx, Late: b.Late, Get: b.Get, Head: b.Head, Range: b.Range, Delete: b.Delete, Search: b.Search, Put: b.Put, DefectMsg: b.DefectMsg}
 	e.run(&res, func() {
 		switch {
 		case b.Get != nil:
